@@ -211,63 +211,233 @@ class PegSim:
                     return self.input_arg(c[1], posmap)
         return None
 
+    # ---- statements.  A block is executed over `posmap` (local name -> position of the input it holds); the result is a signal:
+    #      None (fell through) | ("ret", Res) | ("break",) | ("continue",)
     def run_body(self, stmts, posmap, env, fn):
         ops = []
-        posmap = dict(posmap)
-        for idx, st in enumerate(stmts):
+        pm = dict(posmap)
+        env = dict(env)
+        sig = self.exec_block(stmts, pm, env, fn, ops, top=True)
+        if sig is not None and sig[0] == "ret":
+            return sig[1]
+        return Res(UNK, 0, ops, "no result expression in `%s`" % fn)
+
+    def _err_arm(self, arms, status):
+        """the arm a failed parser application takes: `Err(nom::Err::Error(_))` only for a recoverable error, `Err(nom::Err::Failure(_))` only for a hard
+        one, `Err(e)` / `Err(_)` / `_` for both"""
+        for a in arms:
+            p = a[0]
+            if not is_node(p):
+                continue
+            if p[0] in ("pwild",) or (p[0] == "pident" and not p[1][:1].isupper()):
+                return a
+            if p[0] == "pts" and last_seg(p[1]) == "Err" and len(p[2]) == 1:
+                sub = p[2][0]
+                if sub[0] in ("pwild", "pident"):
+                    return a
+                if sub[0] == "pts":
+                    k = last_seg(sub[1])
+                    if (k == "Error" and status == ERR) or (k == "Failure" and status == FAIL):
+                        return a
+        return None
+
+    def _bind_ok(self, pat, okpat, okbody, r, pm):
+        """bind the pattern of `let PAT = match APPLIED { Ok(OKPAT) => OKBODY, .. }` (or of `if let Ok(OKPAT) = APPLIED`, PAT None) after a success at r.pos"""
+        # names that hold the remaining input inside the Ok arm
+        inner = {}
+        if len(okpat) == 1 and okpat[0][0] == "ptuple" and len(okpat[0][1]) == 2 and okpat[0][1][0][0] == "pident":
+            inner[okpat[0][1][0][1]] = r.pos
+            whole = None
+        elif len(okpat) == 1 and okpat[0][0] == "pident":
+            whole = okpat[0][1]
+        else:
+            return False
+        if pat is None:
+            pm.update(inner)
+            return whole is None
+        b = okbody
+        while is_node(b) and b[0] in ("paren",):
+            b = b[1]
+        if is_node(pat) and pat[0] == "ptuple" and len(pat[1]) == 2 and pat[1][0][0] in ("pident", "pwild"):
+            if whole is not None and is_node(b) and b[0] == "path" and b[1] == whole:
+                pass
+            elif whole is None and is_node(b) and b[0] == "tuple" and len(b[1]) == 2 and is_node(b[1][0]) and b[1][0][0] == "path" and b[1][0][1] in inner:
+                pass
+            else:
+                return False
+            if pat[1][0][0] == "pident":
+                pm[pat[1][0][1]] = r.pos
+            return True
+        return False
+
+    def exec_block(self, stmts, pm, env, fn, ops, top=False):
+        for idx, st in enumerate(stmts or []):
             last = idx == len(stmts) - 1
             if st[0] == "let":
                 pat, init = st[1], st[2]
+                while is_node(pat) and pat[0] == "ptype":
+                    pat = pat[1]
                 if init is None:
                     continue
                 e = init
-                # `match p(input) { Ok(v) => v, Err(e) => return Err(e) }` == `p(input)?`
-                if is_node(e) and e[0] == "match" and self.applied(e[1], posmap) is not None and self._is_try_match(e):
-                    e = ["try", e[1]]
-                app = self.applied(e, posmap)
+                while is_node(e) and e[0] == "paren":
+                    e = e[1]
+                if is_node(e) and e[0] == "match" and self.applied(e[1], pm) is not None:
+                    # let PAT = match p(input) { Ok(v) => v, Err(Error) => break / return, Err(e) => return Err(e) }
+                    arms = e[2]
+                    oks = [a for a in arms if is_node(a[0]) and a[0][0] == "pts" and last_seg(a[0][1]) == "Ok"]
+                    if len(oks) != 1:
+                        return ("ret", Res(UNK, 0, ops, "match on a parser result in `%s`" % fn))
+                    r = self.apply(self.applied(e[1], pm), pm, env, fn)
+                    if r.status == UNK:
+                        return ("ret", Res(UNK, r.pos, ops, r.why))
+                    if r.status == OK:
+                        ops += list(r.ops)
+                        if not self._bind_ok(pat, oks[0][0][2], oks[0][2], r, pm):
+                            return ("ret", Res(UNK, r.pos, ops, "Ok arm of a match on a parser result in `%s`" % fn))
+                        continue
+                    arm = self._err_arm([a for a in arms if a is not oks[0]], r.status)
+                    sig = self._diverge(arm[2] if arm else None, r, ops, fn)
+                    if sig is None:
+                        return ("ret", Res(UNK, r.pos, ops, "Err arm of a match on a parser result in `%s`" % fn))
+                    return sig
+                app = self.applied(e, pm)
                 if app is not None:
                     if not app[3]:
-                        return Res(UNK, posmap[self.input_arg(app[1][app[2]], posmap)], ops, "parser result kept as a value in `%s`" % fn)
-                    r = self.apply(app, posmap, env, fn)
+                        return ("ret", Res(UNK, pm[self.input_arg(app[1][app[2]], pm)], ops, "parser result kept as a value in `%s`" % fn))
+                    r = self.apply(app, pm, env, fn)
                     if r.status != OK:
-                        return Res(r.status, r.pos, ops + list(r.ops), r.why)
+                        return ("ret", Res(r.status, r.pos, ops + list(r.ops), r.why))
                     ops += list(r.ops)
-                    if is_node(pat) and pat[0] == "ptuple" and len(pat[1]) == 2:
-                        first = pat[1][0]
-                        if first[0] == "pident":
-                            posmap[first[1]] = r.pos
-                        elif first[0] == "pwild":
-                            pass
-                        else:
-                            return Res(UNK, r.pos, ops, "input pattern in `%s`" % fn)
-                    elif is_node(pat) and pat[0] == "paren" or (is_node(pat) and pat[0] == "ptuple" and len(pat[1]) == 1):
-                        return Res(UNK, r.pos, ops, "pattern in `%s`" % fn)
-                    else:
-                        return Res(UNK, r.pos, ops, "result not destructured in `%s`" % fn)
+                    if is_node(pat) and pat[0] == "ptuple" and len(pat[1]) == 2 and pat[1][0][0] in ("pident", "pwild"):
+                        if pat[1][0][0] == "pident":
+                            pm[pat[1][0][1]] = r.pos
+                        continue
+                    return ("ret", Res(UNK, r.pos, ops, "result not destructured in `%s`" % fn))
+                if self.has_application(init, pm):
+                    return ("ret", Res(UNK, 0, ops, "parser applied inside an expression in `%s`" % fn))
+                # a local name for a parser (`let next = l6;`, `let op = alt((a, b));`)
+                if is_node(pat) and pat[0] == "pident" and is_node(e) and (
+                        (e[0] == "path" and (last_seg(e[1]) in self.fns or last_seg(e[1]) in self.stubs or e[1] in env)) or
+                        (e[0] == "call" and path_of(e[1]) and last_seg(path_of(e[1])) in ("alt", "pair", "tuple", "nom_tuple", "cut", "opt", "many0", "many1", "preceded", "terminated", "delimited", "tag", "map", "value", "is_not"))):
+                    env[pat[1]] = (e, dict(env))
                     continue
-                if self.has_application(init, posmap):
-                    return Res(UNK, 0, ops, "parser applied inside an expression in `%s`" % fn)
-                # a plain value: if it shadows an input variable, that name no longer holds the input
-                for p in find(pat, "pident") if isinstance(pat, list) else []:
-                    posmap.pop(p[1], None) if p[1] in posmap and not self._mentions_input(init, posmap) else None
+                # a plain value; a copy of an input variable holds the same input
+                src = self.input_arg(init, pm)
+                if src is not None and is_node(pat) and pat[0] == "pident":
+                    pm[pat[1]] = pm[src]
+                    continue
+                for q in find(pat, "pident") if isinstance(pat, list) else []:
+                    if q[1] in pm and not self._mentions_input(init, pm):
+                        pm.pop(q[1], None)
                 continue
             if st[0] == "expr":
                 e = st[1]
-                g = self.is_eof_guard(e, posmap)
+                while is_node(e) and e[0] == "paren":
+                    e = e[1]
+                g = self.is_eof_guard(e, pm)
                 if g is not None:
-                    if posmap[g] >= len(self.text):
-                        return Res(ERR, posmap[g], ops)
+                    if pm[g] >= len(self.text):
+                        return ("ret", Res(ERR, pm[g], ops))
                     continue
                 if is_node(e) and e[0] == "ret":
-                    return self.tail(e[1], posmap, env, fn, ops)
-                if last and not st[2]:
-                    return self.tail(e, posmap, env, fn, ops)
-                if self.has_application(e, posmap):
-                    return Res(UNK, 0, ops, "parser applied in a statement of `%s`" % fn)
+                    return ("ret", self.tail(e[1], pm, env, fn, list(ops)))
+                if is_node(e) and e[0] == "break":
+                    return ("break",)
+                if is_node(e) and e[0] == "continue":
+                    return ("continue",)
+                if is_node(e) and e[0] == "assign" and is_node(e[1]) and e[1][0] == "path":
+                    src = self.input_arg(e[2], pm)
+                    if src is not None:
+                        pm[e[1][1]] = pm[src]
+                        continue
+                    if e[1][1] in pm and not self.has_application(e[2], pm):
+                        return ("ret", Res(UNK, 0, ops, "input variable assigned a computed value in `%s`" % fn))
+                if is_node(e) and e[0] in ("loop", "while"):
+                    sig = self._loop(e, pm, env, fn, ops)
+                    if sig is not None:
+                        return sig
+                    continue
+                if is_node(e) and e[0] == "if" and is_node(e[1]) and e[1][0] == "letc" and self.applied(e[1][2], pm) is not None and not (top and last and not st[2]):
+                    sig = self._if_let(e, pm, env, fn, ops)
+                    if sig is not None:
+                        return sig
+                    continue
+                if top and last and not st[2]:
+                    return ("ret", self.tail(e, pm, env, fn, list(ops)))
+                if is_node(e) and e[0] in ("block", "unsafe") and self.has_application(e, pm):
+                    sig = self.exec_block(e[1], pm, env, fn, ops)
+                    if sig is not None:
+                        return sig
+                    continue
+                if self.has_application(e, pm):
+                    return ("ret", Res(UNK, 0, ops, "parser applied in a statement of `%s`" % fn))
                 continue
             if st[0] in ("item", "macro", "fn", "use", "const"):
                 continue
-        return Res(UNK, 0, ops, "no result expression in `%s`" % fn)
+        return None
+
+    def _diverge(self, body, r, ops, fn):
+        """signal of an arm body that leaves: `break`, `continue`, `return Err(e)` (propagates the failure r)"""
+        b = body
+        while is_node(b) and b[0] in ("block", "unsafe") and len(b[1]) == 1 and b[1][0][0] == "expr":
+            b = b[1][0][1]
+        if not is_node(b):
+            return None
+        if b[0] == "break":
+            return ("break",)
+        if b[0] == "continue":
+            return ("continue",)
+        if b[0] == "ret" and is_node(b[1]) and b[1][0] == "call" and path_of(b[1][1]) == "Err":
+            return ("ret", Res(r.status, r.pos, list(ops) + list(r.ops), r.why))
+        return None
+
+    def _if_let(self, e, pm, env, fn, ops):
+        """`if let Ok((i, v)) = p(input) { .. } else { .. }` as a statement"""
+        pat = e[1][1]
+        if not (is_node(pat) and pat[0] == "pts" and last_seg(pat[1]) == "Ok"):
+            return ("ret", Res(UNK, 0, ops, "if-let on a parser result in `%s`" % fn))
+        r = self.apply(self.applied(e[1][2], pm), pm, env, fn)
+        if r.status == UNK:
+            return ("ret", Res(UNK, r.pos, ops, r.why))
+        if r.status == OK:
+            ops += list(r.ops)
+            if not self._bind_ok(None, pat[2], None, r, pm):
+                return ("ret", Res(UNK, r.pos, ops, "if-let pattern in `%s`" % fn))
+            return self.exec_block(e[2], pm, env, fn, ops)
+        if e[3] is None:
+            return None
+        els = e[3][1] if is_node(e[3]) and e[3][0] == "block" else [["expr", e[3], False]]
+        return self.exec_block(els, pm, env, fn, ops)
+
+    def _loop(self, e, pm, env, fn, ops):
+        """`loop { .. }` and `while let Ok((i, v)) = p(input.clone()) { .. }`: a hand-written repetition"""
+        body = e[1] if e[0] == "loop" else e[2]
+        for _ in range(200):
+            before = dict(pm)
+            if e[0] == "while":
+                c = e[1]
+                if not (is_node(c) and c[0] == "letc" and self.applied(c[2], pm) is not None and is_node(c[1]) and c[1][0] == "pts" and last_seg(c[1][1]) == "Ok"):
+                    if self.has_application(e, pm):
+                        return ("ret", Res(UNK, 0, ops, "while loop in `%s`" % fn))
+                    return None
+                r = self.apply(self.applied(c[2], pm), pm, env, fn)
+                if r.status == UNK:
+                    return ("ret", Res(UNK, r.pos, ops, r.why))
+                if r.status != OK:
+                    return None            # `while let Ok(..)` ends on any error (a hard failure is swallowed too)
+                ops += list(r.ops)
+                if not self._bind_ok(None, c[1][2], None, r, pm):
+                    return ("ret", Res(UNK, r.pos, ops, "while-let pattern in `%s`" % fn))
+            sig = self.exec_block(body, pm, env, fn, ops)
+            if sig is not None:
+                if sig[0] == "break":
+                    return None
+                if sig[0] == "ret":
+                    return sig
+            if pm == before:
+                return ("ret", Res(UNK, 0, ops, "loop without progress in `%s`" % fn))
+        return ("ret", Res(UNK, 0, ops, "repetition bound"))
 
     def _mentions_input(self, e, posmap):
         return any(p[1] in posmap for p in find(e, "path")) if isinstance(e, list) else False
@@ -297,6 +467,8 @@ class PegSim:
         if e[0] in ("block", "unsafe"):
             r = self.run_body(e[1], posmap, env, fn)
             return Res(r.status, r.pos, ops + list(r.ops), r.why)
+        if e[0] == "ret":
+            return self.tail(e[1], posmap, env, fn, ops)
         if e[0] == "call" and path_of(e[1]) == "Ok" and len(e[2]) == 1:
             v = e[2][0]
             if is_node(v) and v[0] == "tuple" and len(v[1]) == 2:
@@ -338,6 +510,17 @@ class PegSim:
         if app is not None:
             r = self.apply(app, posmap, env, fn)
             return Res(r.status, r.pos, ops + list(r.ops), r.why)
+        # a choice on a plain value (`if mark.is_some() { Ok((input, A)) } else { Ok((input, B)) }`, `match opt { Some(_) => Ok(..), None => Ok(..) }`):
+        # decided when every branch ends the same way at the same position
+        branches = None
+        if e[0] == "if" and not self.has_application(e[1], posmap) and e[3] is not None:
+            branches = [["block", e[2]], e[3]]
+        elif e[0] == "match" and not self.has_application(e[1], posmap):
+            branches = [a[2] for a in e[2]]
+        if branches:
+            rs = [self.tail(b, dict(posmap), env, fn, list(ops)) for b in branches]
+            if all(r.status == rs[0].status and r.pos == rs[0].pos for r in rs) and rs[0].status != UNK:
+                return max(rs, key=lambda r: len(r.ops))
         return Res(UNK, 0, ops, "result expression of `%s`" % fn)
 
     # ------------------------------------------------------------------ combinators
